@@ -179,6 +179,12 @@ def run(tier):
     for rep in range(1 if tier == "quick" else 15):
         for kind in sorted(set(netgen.MULTI_KINDS)):
             jobs.append({"family": "multi_subgraph:" + kind, "seed": "c12m-%d-%d" % (vlib.seed(), rep), "args": compiles.config_args(rng), "capture": False})
+    # 16-bit producers, a type-narrowing QUANTIZE and 8-bit consumers in one cascade (rolling buffers whose element size
+    # differs between producer and consumer), at the SRAM budgets that make the scheduler cascade them
+    for rep in range(6 if tier == "quick" else 120):
+        jobs.append({"family": "narrowing_chain", "seed": "c12n-%d-%d" % (vlib.seed(), rep),
+                     "args": ["--accelerator-config", ["ethos-u55-128", "ethos-u55-256", "ethos-u65-256"][rep % 3], "--arena-cache-size",
+                              str([80000, 90000, 75000, 85000, 100000, 60000][rep % 6])], "capture": False})
     results = compiles.run_all(jobs, timeout=900)
     cases, meta, skipped = [], [], collections.Counter()
     for r in results:
